@@ -13,6 +13,8 @@ struct Built {
     db: abyssiniandb::filedb::FileDb,
     /// None while every handle of the map is dropped (the database object keeps the map open)
     map_opt: Option<abyssiniandb::filedb::FileDbMapDbBytes>,
+    /// a second handle of the same map, obtained by a lookup of its own; it has flushed once while the map was clean
+    other: Option<abyssiniandb::filedb::FileDbMapDbBytes>,
     /// clean maps of other key types in the same database (visited after the bytes map by a database-level sync)
     _side: (abyssiniandb::filedb::FileDbMapDbString, abyssiniandb::filedb::FileDbMapDbVu64),
     model: Model,
@@ -49,6 +51,8 @@ fn build(dir: &Path, shape: u32, seed: u64) -> Result<Built, String> {
     side_s.put_string("clean", "map").map_err(|e| e.to_string())?;
     side_v.put(&7u64, b"clean").map_err(|e| e.to_string())?;
     db.sync_all().map_err(|e| e.to_string())?;
+    let mut other = db.db_map_bytes("m").map_err(|e| e.to_string())?;
+    other.flush().map_err(|e| e.to_string())?;
     // phase 2: unsynced updates touching all three files (inserts, overwrites that relocate, deletes)
     for (i, k) in keys.iter().enumerate().skip(nkeys / 2) {
         let v = crate::util::gen_bytes(vlen + (i % 5), 500 + i as u32, 0);
@@ -66,7 +70,7 @@ fn build(dir: &Path, shape: u32, seed: u64) -> Result<Built, String> {
             model.remove(k);
         }
     }
-    Ok(Built { db, map_opt: Some(map), model, keys, _side: (side_s, side_v) })
+    Ok(Built { db, map_opt: Some(map), other: Some(other), model, keys, _side: (side_s, side_v) })
 }
 
 impl Built {
@@ -185,7 +189,19 @@ fn one_threshold(a: &Args, shape: u32, seed: u64, t: u64, kind: u32, between: u3
     };
     if variant == 2 && kind % 5 >= 3 {
         b.map_opt = None;
+        b.other = None;
         ctx.count("fault_with_all_handles_dropped", 1);
+    }
+    // variant 3: a read_fill_buffer (read-only) sits between the updates and the failing call.
+    // variant 4: the failing call and everything after it go through the second handle of the map (the updates went
+    // through the first one)
+    if variant == 3 {
+        let _ = guarded(crate::session::STEP_BUDGET_BASE, || b.map().read_fill_buffer());
+        ctx.count("fault_after_read_fill_buffer", 1);
+    }
+    if variant == 4 {
+        std::mem::swap(&mut b.map_opt, &mut b.other);
+        ctx.count("fault_through_second_handle", 1);
     }
     // ---- the fault: soft limit down, call, (reads), limit up
     if !crate::sys::set_fsize_soft(t) {
@@ -369,6 +385,98 @@ fn one_threshold(a: &Args, shape: u32, seed: u64, t: u64, kind: u32, between: u3
     Ok(refused_any)
 }
 
+/// A write refusal inside an *update* call: the value buffer is small, so a put of a value larger than the buffer writes
+/// to the file at once; RLIMIT_FSIZE is lowered so that this write is refused in the middle of the new record. The
+/// put may fail; what the key then holds is re-read from the map. Afterwards (limit lifted) the map is used further,
+/// flushed and closed: the files must still decode to a consistent structure (`--as C05`), every slot must still be
+/// used or free and the slots must tile the files (`--as C06`), and the map must still hold what its calls said.
+pub fn faultput(a: &Args) -> Ctx {
+    let prop: &'static str = if a.get("as") == Some("C06") { "C06" } else { "C05" };
+    let mut ctx = Ctx::new(prop, &[prop], &a.replay_dir, &a.shard_name());
+    crate::sys::ignore_sigxfsz();
+    let mut rng = Rng::new(a.shard_seed() ^ 0xFA17);
+    let cases = a.get_u64("cases", 12);
+    for case in 0..cases {
+        ctx.evaluations += 1;
+        let dir = a.scratch.join("fput");
+        let _ = std::fs::remove_dir_all(&dir);
+        let which_key = case % 3 == 2; // the refused write hits the key file (a key longer than the key buffer)
+        let cfg = Cfg { buckets: Buckets::Size(*rng.pick(&[1u64, 8, 64])), key: if which_key { Buf::Size(0) } else { Buf::PerMille(1000) }, val: Buf::Size(*rng.pick(&[0u32, 8192, 262144])), htx: Buf::PerMille(1000) };
+        let r: Result<(), String> = (|| {
+            let mut s = Session::<DbBytes>::create(&dir, "m", &cfg)?;
+            let mon = Mon::default();
+            let mut keys: Vec<Vec<u8>> = (0..30u32).map(|i| format!("k{i:05}").into_bytes()).collect();
+            if which_key {
+                keys.push(crate::util::gen_bytes(600_000, 5, 1));
+            }
+            let big_k = keys.len() - 1;
+            let mut bits = Rng::new(case + 3);
+            for k in 0..20usize {
+                let op = Op::Put(k, ValSpec { len: *rng.pick(&[10u32, 100, 1100, 5000, 70_000]), seed: k as u32, kind: 0 });
+                s.apply(k, &op, &keys, &mon, &mut ctx, bits.next()).map_err(|f| format!("FOREIGN {}", f.msg))?;
+            }
+            let _ = s.apply(20, &Op::Flush, &keys, &mon, &mut ctx, bits.next());
+            // the refused write: somewhere inside the record that is appended now
+            let flen = |ext: &str| std::fs::metadata(dir.join(format!("m.{ext}"))).map(|m| m.len()).unwrap_or(0);
+            let (file_len, big_len) = if which_key { (flen("key"), 600_000u64) } else { (flen("val"), 1 << 20) };
+            let limit = file_len + rng.range(1, big_len - 1);
+            let victim = if which_key { big_k } else { rng.below(25) as usize };
+            let vlen = if which_key { 50 } else { 1 << 20 };
+            if !crate::sys::set_fsize_soft(limit) {
+                return Err("HARNESS setrlimit failed".into());
+            }
+            let v = crate::util::gen_bytes(vlen, 77, 0);
+            let kk = keys[victim].clone();
+            let pr = guarded(crate::session::STEP_BUDGET_BASE, || s.map.as_mut().unwrap().put(&kk[..], &v));
+            crate::sys::set_fsize_soft(crate::sys::RLIM_INFINITY);
+            match pr {
+                Guard::Ok(Ok(())) => {
+                    ctx.count("faulted_put.ok", 1);
+                }
+                Guard::Ok(Err(_)) => ctx.count("faulted_put.err", 1),
+                Guard::Hang(m) | Guard::Panic(m) => {
+                    ctx.count("faulted_put.panicked", 1);
+                    return Err(format!("FOREIGN the put under the limit panicked: {m}"));
+                }
+            }
+            if !s.resync_key(&kk) {
+                return Err("FOREIGN the key of the failed put cannot be read afterwards".into());
+            }
+            // life goes on
+            for (j, k) in (20..30usize).chain(0..6).enumerate() {
+                let op = if j % 4 == 3 { Op::Del(k) } else { Op::Put(k, ValSpec { len: *rng.pick(&[10u32, 1100, 5000, 70_000, 300_000]), seed: 100 + j as u32, kind: 0 }) };
+                s.apply(30 + j, &op, &keys, &mon, &mut ctx, bits.next()).map_err(|f| format!("FOREIGN after the failed put: {}", f.msg))?;
+            }
+            s.apply(60, &Op::Flush, &keys, &mon, &mut ctx, bits.next()).map_err(|f| format!("FOREIGN {}", f.msg))?;
+            s.close();
+            let dmon = Mon { decode_at_close: true, ..Default::default() };
+            s.decode_checkpoint(61, &dmon, &mut ctx, "close").map_err(|f| format!("after a put that was refused in the middle of its record ({} file, limit {limit}, file length before {file_len}), further updates, flush and close: {}", if which_key { "key" } else { "value" }, f.msg))?;
+            if let Ok(img) = s.image() {
+                let d = img.digest();
+                ctx.digests.insert(d);
+                ctx.nontrivial.insert(d);
+            }
+            Ok(())
+        })();
+        crate::sys::set_fsize_soft(crate::sys::RLIM_INFINITY);
+        let _ = std::fs::remove_dir_all(&dir);
+        if let Err(m) = r {
+            if m.starts_with("HARNESS") {
+                ctx.inconclusive.push(m);
+            } else {
+                let owners: &'static [&'static str] = if m.starts_with("FOREIGN") { &["C01"] } else { &["C05", "C06"] };
+                let st = ctx.classify(finding(owners, "faulted_update", case as usize, m));
+                let v = matches!(st, Stop::Violation(_));
+                ctx.record_stop(st, None);
+                if v {
+                    return ctx;
+                }
+            }
+        }
+    }
+    ctx
+}
+
 pub fn run(a: &Args) -> Ctx {
     // `--as C03`: the same fault workload judged for C03 ("whenever a flush/sync returns Ok the files hold every
     // update", which includes the flush that follows a failed one); only the Ok-but-not-durable findings count then
@@ -392,7 +500,7 @@ pub fn run(a: &Args) -> Ctx {
           for kind in 0..5u32 {
             for between in 0..3u32 {
               for retry_flush in [true, false] {
-               for variant in 0..3u32 {
+               for variant in 0..5u32 {
                 if variant == 2 && kind < 3 {
                     continue;
                 }
